@@ -15,7 +15,7 @@
    ([writer_waits_refuted]; known finding) and holds of the candidate repair ([writer_waits_fixed],
    [writer_confirmed_is_last_fixed]); the retry part is not modelled (validated as a known finding on the code). *)
 From Common Require Import Prelude.
-From C14 Require Import Crc Model Lemmas.
+From C14 Require Import Crc Model Flow Links Lemmas CrcLemmas FlowLemmas FlowInv LinkLemmas OppSwitch Route2 Route2Lemmas.
 Open Scope Z_scope.
 
 (* ---- CRC ---- *)
@@ -171,3 +171,157 @@ Theorem fast_snapshot_decides : forall pre bits m n inv st0,
   Some (inv, Z.lxor (if inv then 1 else 0) (nth (Z.to_nat n) bits 0)).
 Proof. exact snapshot_decides_l. Qed.
 Print Assumptions fast_snapshot_decides.
+
+(* ---- CRC: two corrupted bytes ---- *)
+(* EXACT: xor-errors e1 at one byte and e2 at a byte |mid|+1 positions later (the second may be the CRC byte itself)
+   go unnoticed iff e2 is the (distance)-fold table image of e1 *)
+Theorem two_byte_corruption_exact : forall pre b1 mid b2 post e1 e2,
+  Forall is_byte (pre ++ b1 :: mid ++ b2 :: post) -> is_byte e1 -> is_byte e2 ->
+  frame_crc_ok (pre ++ b1 :: mid ++ b2 :: post) = true ->
+  (frame_crc_ok (pre ++ Z.lxor b1 e1 :: mid ++ Z.lxor b2 e2 :: post) = true <->
+   e2 = titer (S (length mid)) e1).
+Proof. exact two_byte_corruption_exact_l. Qed.
+Print Assumptions two_byte_corruption_exact.
+
+(* every burst of up to 8 bits across two adjacent bytes is detected (polynomial 0x07) *)
+Theorem burst8_detected : forall pre b1 b2 post e1 e2,
+  Forall is_byte (pre ++ b1 :: b2 :: post) -> is_byte e1 -> is_byte e2 -> burst8b e1 e2 = true ->
+  frame_crc_ok (pre ++ b1 :: b2 :: post) = true ->
+  frame_crc_ok (pre ++ Z.lxor b1 e1 :: Z.lxor b2 e2 :: post) = false.
+Proof. exact burst8_detected_l. Qed.
+Print Assumptions burst8_detected.
+
+(* "any two-byte corruption is detected" is false: a valid 7-byte report and a different, equally valid one that
+   differs in two adjacent data bytes (a 9-bit burst, the generator polynomial itself) *)
+Theorem two_byte_corruption_refuted :
+  exists f f', frame_crc_ok f = true /\ length f = 7%nat /\ length f' = 7%nat /\ f <> f' /\
+               firstn 4 f' = firstn 4 f /\ skipn 6 f' = skipn 6 f /\ frame_crc_ok f' = true.
+Proof. exact two_byte_corruption_refuted_l. Qed.
+Print Assumptions two_byte_corruption_refuted.
+
+(* ---- FAST command channel as a whole (Flow.v; code as found) ---- *)
+(* what is written, followed by what is queued, only ever grows at its end: queue order is kept, nothing is
+   written that was not queued, for every history of calls, incoming messages and time *)
+Theorem flow_order_preserved : forall cfg ops s,
+  exists suf, x_written (xrun cfg s ops) ++ x_queue (xrun cfg s ops) = (x_written s ++ x_queue s) ++ suf.
+Proof. exact flow_order_l. Qed.
+Print Assumptions flow_order_preserved.
+
+(* the writer as found never holds a queued command back *)
+Theorem flow_queue_always_drained : forall cfg s op, x_queue (xstep cfg s op) = [].
+Proof. exact xstep_queue_empty. Qed.
+Print Assumptions flow_queue_always_drained.
+
+(* losing, delaying or duplicating messages that reach no message processor (pure confirmations, ignored and unknown
+   messages) changes nothing but the pause state: what is written, which callers returned, who is blocked *)
+Theorem flow_confirmations_irrelevant : forall cfg ops,
+  let a := xrun cfg xinit ops in
+  let b := xrun cfg xinit (erase_unprocessed cfg ops) in
+  x_written a = x_written b /\ x_fin a = x_fin b /\ x_waiters a = x_waiters b /\ x_nrw a = x_nrw b /\
+  x_dwait a = x_dwait b.
+Proof. exact confirmations_irrelevant_l. Qed.
+Print Assumptions flow_confirmations_irrelevant.
+
+(* liveness as found: the next message that reaches a processor releases EVERY caller blocked in
+   send_and_wait_for_response, and their commands are written in that very step *)
+Theorem flow_processed_releases_all : forall cfg s msg,
+  processedb cfg msg = true ->
+  x_waiters (xstep cfg s (XRx msg)) = [] /\
+  forall w, In w (x_waiters s) -> In (wt_m w, Some (wt_u w)) (x_written (xstep cfg s (XRx msg))).
+Proof. exact processed_releases_all_l. Qed.
+Print Assumptions flow_processed_releases_all.
+
+(* ... which also means the query channel is not serialised: one answer lets two further commands out *)
+Theorem flow_one_in_flight_refuted :
+  exists ops, let s := xrun cfg_ex xinit ops in
+    exists s0, s0 = xrun cfg_ex xinit (removelast ops) /\
+      map fst (x_written s0) = [1] /\ map fst (x_written s) = [1; 2; 3] /\ x_paused s = Some SA.
+Proof. exact saw_not_serialised_l. Qed.
+Print Assumptions flow_one_in_flight_refuted.
+
+(* the retry clause, refuted for ALL parameters: whatever header, timeout and max_retries, a command sent with
+   send_and_wait_for_response_processed whose response is lost is written exactly once and its caller never returns,
+   however long one waits *)
+Theorem flow_lost_response_never_resent : forall cfg m u tmo r ds,
+  r = -1 \/ 0 <= r ->
+  let s := xrun cfg xinit (XSawp m u tmo r :: map XAdv ds) in
+  x_written s = [(m, Some u)] /\ x_fin s = [] /\ x_dwait s = [m] /\ x_queue s = [].
+Proof. exact lost_response_never_resent_l. Qed.
+Print Assumptions flow_lost_response_never_resent.
+
+(* ... and a command can be dropped without ever being sent *)
+Theorem flow_gives_up_unsent_refuted :
+  exists ops, let s := xrun cfg_ex xinit ops in
+    map fst (x_written s) = [1] /\ x_fin s = [1; 2] /\ x_waiters s = [] /\ x_nrw s = true.
+Proof. exact sawp_gives_up_unsent_l. Qed.
+Print Assumptions flow_gives_up_unsent_refuted.
+
+(* ---- header tables of all FAST processors, FAST switch reports from bytes, PKONE in-flight counter ---- *)
+Theorem chunking_independent_fast_routing : forall p c1 c2,
+  concat c1 = concat c2 -> fast_routed p c1 = fast_routed p c2.
+Proof. exact fast_routed_chunking_l. Qed.
+Print Assumptions chunking_independent_fast_routing.
+
+Theorem chunking_independent_fast_switches : forall sw m c1 c2,
+  concat c1 = concat c2 -> fast_e2e sw m c1 = fast_e2e sw m c2.
+Proof. exact fast_e2e_chunking_l. Qed.
+Print Assumptions chunking_independent_fast_switches.
+
+(* END TO END, bytes to switch states: for any reads whose concatenation is a sequence of complete messages followed
+   by an incomplete one (the stream cut anywhere), the state of every configured switch is what the last report among
+   the complete messages says; the incomplete message and messages that are not reports contribute nothing *)
+Theorem fast_bytes_last_report_wins : forall sw m0 msgs tail chunks n inv st0,
+  Forall (good_msg 13) msgs -> ~ In 13 tail -> concat chunks = frame_msgs 13 msgs ++ tail ->
+  fget n m0 = Some (inv, st0) ->
+  fget n (fast_e2e sw m0 chunks) = Some (inv, last_fast n inv (decode_all sw msgs) st0).
+Proof. exact fast_e2e_last_report_l. Qed.
+Print Assumptions fast_bytes_last_report_wins.
+
+Theorem fast_nonreport_changes_nothing : forall sw a x b m0,
+  fast_decode sw x = None ->
+  fold_left fstep (decode_all sw (a ++ x :: b)) m0 = fold_left fstep (decode_all sw (a ++ b)) m0.
+Proof. exact fast_nonreport_no_change_l. Qed.
+Print Assumptions fast_nonreport_changes_nothing.
+
+Theorem chunking_independent_pkone_inflight : forall n mx c1 c2,
+  concat c1 = concat c2 -> pk_inflight n mx c1 = pk_inflight n mx c2.
+Proof. exact pk_inflight_chunking_l. Qed.
+Print Assumptions chunking_independent_pkone_inflight.
+
+(* invariant of every reachable state of the command channel: the send queue is empty between operations, and callers
+   are blocked in send_and_wait_for_response only while no_response_waiting is clear *)
+Theorem flow_invariant : forall cfg ops,
+  let s := xrun cfg xinit ops in
+  x_queue s = [] /\ (x_waiters s <> [] -> x_nrw s = false).
+Proof. exact flow_invariant_l. Qed.
+Print Assumptions flow_invariant.
+
+(* ---- OPP: from delivered frames / from bytes to the SwitchController ---- *)
+(* if the controller agreed (active low) with the card's old state, then after ANY delivered frames - valid, corrupt,
+   for other cards, matrix reports - the process_switch_by_num calls leave it equal to the last CRC-valid report *)
+Theorem opp_switch_state_last_report : forall fs bd a old i,
+  aget a (b_inp bd) = Some old -> 0 <= i < 32 ->
+  sw_after (snd (apply_frames bd fs)) a i (active_low old i) = active_low (last_inp a fs old) i.
+Proof. exact opp_switch_state_last_report_l. Qed.
+Print Assumptions opp_switch_state_last_report.
+
+Theorem opp_bytes_switch_state : forall c1 c2 bd a old i,
+  concat c1 = concat c2 -> aget a (b_inp bd) = Some old -> 0 <= i < 32 ->
+  let fs1 := snd (opp_feed_chunks opp_init c1) in
+  let fs2 := snd (opp_feed_chunks opp_init c2) in
+  fs1 = fs2 /\
+  sw_after (snd (apply_frames bd fs1)) a i (active_low old i) = active_low (last_inp a fs2 old) i.
+Proof. exact opp_bytes_switch_state_l. Qed.
+Print Assumptions opp_bytes_switch_state.
+
+(* the complete observable effect of received bytes on the dispatcher of any FAST processor - processor calls, pause
+   lifted, no_response_waiting set - does not depend on the split into reads; an IGNORED message is inert *)
+Theorem chunking_independent_fast_effect : forall p u c1 c2,
+  concat c1 = concat c2 -> fast_effect p u c1 = fast_effect p u c2.
+Proof. exact fast_effect_chunking_l. Qed.
+Print Assumptions chunking_independent_fast_effect.
+
+Theorem ignored_message_inert : forall p u msg,
+  existsb (zs_eqb msg) (fast_ignored p) = true -> route p msg = None /\ lifts p u msg = false.
+Proof. exact ignored_message_inert_l. Qed.
+Print Assumptions ignored_message_inert.
